@@ -7,7 +7,8 @@ exchange/server_flow.go; both random streams are explicit tapes, the mode (`cc.t
 datacenter ids are parameters, and the composite primitives are parameters `P` constrained only by
 their round-trip laws (`LawfulXP`).
 -/
-import TdModel.Lemmas.C09Run
+import TdModel.Lemmas.C09Key
+import TdModel.Lemmas.C09Sched
 
 namespace TdModel.C09
 open TdModel
@@ -57,6 +58,66 @@ theorem exchange_completes {Ct} (P : XP Ct) (hP : LawfulXP P) (cc : CCfg) (ct : 
     rw [powMod_eq, powMod_eq, ← Nat.pow_mod, ← Nat.pow_mul, hg]
   rw [e] at h
   exact h
+
+/-- The client never returns a zero key on success: whatever it was sent, if it completes and the
+dh_prime it accepted really is prime (`CheckDH` tests primality probabilistically; here it is a
+hypothesis), the auth key value `g_a^b mod p` is non-zero and so are its 256 key bytes. -/
+theorem key_nonzero {Ct} (P : XP Ct) (cfg : CCfg) (t : CTape) (ms : List (Msg Ct)) (r : CResult)
+    (outs : List (Msg Ct)) (h : crun P cfg t .waitResPQ ms = (.done r, outs))
+    (hprime : ∀ n sn ans d, Msg.dhOk n sn ans ∈ ms →
+      P.decS (tempAESKeys P.sha1 t.newNonce sn) ans = some d → IsPrime d.dhPrime) :
+    r.key ≠ 0 ∧ keyBytes r.key ≠ List.replicate 256 0 := by
+  obtain ⟨sn, pq, fps, fp, p, q, ans, d, hash, rest, hms, _, _, _, hdec, _, _, hdh, hpar, _, hr⟩ :=
+    crun_done_implies P cfg t ms r outs h
+  have hp : IsPrime d.dhPrime := hprime t.nonce sn ans d (by rw [hms]; simp) hdec
+  obtain ⟨_, _, ha1, ha2, _⟩ := checkDHParams_true _ _ _ _ hpar
+  have hk : r.key = d.gA ^ t.b % d.dhPrime := by rw [hr, powMod_eq]
+  have hne : r.key ≠ 0 := by
+    rw [hk]; exact pow_mod_prime_ne_zero _ _ _ hp (by omega) (by omega)
+  refine ⟨hne, fun hz => hne ?_⟩
+  have hmod := natToBE_zero 256 r.key hz
+  have hbits := (checkDH_true _ _ _ hdh).1
+  have hlt : d.dhPrime < 2 ^ 2048 := by
+    have h2 : Facts.C09.rsaKeyBits = 2048 := by decide
+    rw [h2] at hbits
+    unfold bitLen at hbits
+    split at hbits
+    · omega
+    · have := @Nat.lt_log2_self d.dhPrime
+      have e : d.dhPrime.log2 + 1 = 2048 := hbits
+      rw [e] at this
+      exact this
+  have hkl : r.key < d.dhPrime := by
+    rw [hk]; exact Nat.mod_lt _ (by have := hp.1; omega)
+  have e256 : (256 : Nat) ^ 256 = 2 ^ 2048 := by
+    rw [show (256 : Nat) = 2 ^ 8 from rfl, ← Nat.pow_mul]
+  rw [e256] at hmod
+  rw [Nat.mod_eq_of_lt (by omega)] at hmod
+  exact hmod
+
+/-- All read/write interleavings over the transport: in the asynchronous product of the two `Run`s
+(`Sys`, TdModel/Model/C09Sched.lean: pending writes, two FIFO directions, any action order), every
+schedule that runs until nothing is pending ends with client and server in the states of the
+sequential composition `honestRun` — so `exchange_agree` / `exchange_completes` hold for every
+interleaving. -/
+theorem schedule_independent {Ct} (P : XP Ct) (cc : CCfg) (ct : CTape) (sc : SCfg) (st : STape)
+    (as : List Act) (y : Sys Ct)
+    (h : exec P cc ct sc st (Sys.init ct) as = some y) (hy : y.quiescent) :
+    y.c = (honestRun P cc ct sc st).1 ∧ y.s = (honestRun P cc ct sc st).2.1 :=
+  sched_independent P cc ct sc st as y h hy
+
+/-- … and the interleaving is in fact forced (strict request/response): two schedules of the same
+length are the same schedule. -/
+theorem unique_run {Ct} (P : XP Ct) (cc : CCfg) (ct : CTape) (sc : SCfg) (st : STape)
+    (as bs : List Act) (y z : Sys Ct)
+    (h1 : exec P cc ct sc st (Sys.init ct) as = some y) (h2 : exec P cc ct sc st (Sys.init ct) bs = some z)
+    (hl : as.length = bs.length) : as = bs :=
+  exec_unique P cc ct sc st _ as bs y z (init_tokens ct) h1 h2 hl
+
+/-- Non-vacuity of the schedule theorems: the first four actions of the run are enabled. -/
+example {Ct} (P : XP Ct) (cc : CCfg) (ct : CTape) (sc : SCfg) (st : STape) :
+    (exec P cc ct sc st (Sys.init ct) [.cSend, .sRecv, .sSend, .cRecv]).isSome = true := by
+  simp [exec, step, Sys.init, sstep]
 
 /-- The symbolic instance used by the driver satisfies the laws: the hypotheses are satisfiable. -/
 theorem symXP_lawful (sha1 : Bytes → Bytes) (isPrime : Nat → Bool) (factor : Nat → Option (Nat × Nat)) :
